@@ -36,7 +36,7 @@ META = {
     'components_real': ['TapeRecorder', 'find_matching_recording_ids', 'in-memory / file / S3 cassettes'],
     'components_stub': ['clock (virtual, advanced by the workload)', 'S3 bucket', 'service and environment'],
     'budgets': {'quick': {'seconds': 30}, 'thorough': {'seconds': 480}},
-    'required_probes': {'thorough': ['recording_disabled_while_in_flight', 'interrupt_inside_body', 'interrupt_after_outputs', 'exception_after_outputs', 'class_level_operation',
+    'required_probes': {'thorough': ['worker_thread_sends_an_output_while_the_operation_ends', 'recording_disabled_while_in_flight', 'interrupt_inside_body', 'interrupt_after_outputs', 'exception_after_outputs', 'class_level_operation',
                                      'extractor_failed', 'lookup_separated_incomplete', 'earlier_run_of_same_operation', 'subclass_of_decorated_base', 'invoked_while_handling_an_exception']},
 }
 
@@ -45,6 +45,61 @@ def run_tape(tape):
     clock = seams.VClock(tick=0.0005)
     with seams.deterministic(tape, clock=clock):
         return _run(tape, clock)
+
+
+def straggler_output(tape, clock):
+    """A fire-and-forget worker thread of the operation is still sending an output while the operation ends: it is
+    pre-empted at line point k (inside its interception) and gets the processor back at point m of what follows the
+    operation body.  The run returned: whatever is saved for it is flagged complete, not ended-in-exception."""
+    import os
+    from simkit import REPO
+    from simkit.sim import Sim, SimDeadlock
+    from playback.tape_cassettes.in_memory.in_memory_tape_cassette import InMemoryTapeCassette
+    run = Run(PROP)
+    run.probe('worker_thread_sends_an_output_while_the_operation_ends')
+    k, m = tape.draw(200), tape.draw(120)
+    raises = tape.draw(3) == 2
+    spec = R.ServiceSpec()
+    spec.op.name = 'OpA'
+    spec.outputs = [R.OutputSpec(0)]
+    late = [['out', 0, ((1,), {}), ('value', 2), None]] * (1 + tape.draw(2))
+    spec.body = [['out', 0, ((0,), {}), ('value', 1), None], ['spawn', [late], True]] + ([['raise', R.D.ErrA]] if raises else [])
+    sim = Sim(tape, run, preempt_p=0.0, prim_p=0.0, placements={k: 0}, eager_start=True,
+              target_files=[os.path.join(REPO, 'playback', 'tape_recorder.py')], max_steps=60000)
+    spy = R.SpyCassette(InMemoryTapeCassette(), run)
+    recorder = TapeRecorder(spy)
+    env = R.Env(spec, run, recorder)
+    env.on_body_done = lambda: sim.placements.__setitem__(sim.line_points + m, 0)
+    svc = R.Service(spec, env, recorder, thread_factory=R.sim_thread_factory(sim))
+    res = {}
+
+    def main():
+        res['rec'] = R.record_once(spec, run, spy, recorder=recorder, service=svc)
+        for name, th, tobs, strag in svc.threads:
+            th.join()
+    try:
+        sim.run_main(main)
+    except SimDeadlock as ex:
+        run.violate('saved', 'deadlock', str(ex))
+        return run
+    rec = res['rec']
+    run.nontrivial = sim.switches > 1
+    run.say('worker pre-empted at line point %d, resumed %d points after the operation body; operation %s; saved=%s' % (k, m, rec.outcome.kind, rec.saved))
+    run.ev('straggler_output', k, m, raises, rec.outcome.kind, rec.saved, sim.switches)
+    want = 'raise' if raises else 'return'
+    run.check(rec.outcome.kind == want, 'outcome_unchanged', 'outcome', lambda: 'operation ended by %s, expected %s' % (rec.outcome.kind, want))
+    if not rec.saved:
+        run.violate('saved', 'not-saved', 'recording at rate 1 without discard was not saved: %s' % rec.spy.calls)
+        return run
+    meta = spy.inner.get_recording(rec.rec_id).get_metadata()
+    inc = meta.get(T.INCOMPLETE_RECORDING)
+    run.check(inc is False, 'incomplete_iff_interrupted', 'incomplete-%s-on-%s' % (inc, want),
+              lambda: 'the operation ended by %s (a worker thread was still sending an output) but the recording is flagged incomplete=%r' % (want, inc))
+    exc = meta.get(T.EXCEPTION_IN_OPERATION)
+    run.check(exc is raises, 'exception_flag', 'exception-flag-%s-on-%s' % (exc, want), lambda: 'exception flag %r for a run that ended by %s' % (exc, want))
+    found = list(find_matching_recording_ids(TapeRecorder(spy.inner), 'OpA', RecordingLookupProperties(None)))
+    run.check(rec.rec_id in found, 'default_lookup_returns_complete_ones', 'lookup-misses-complete', 'the default lookup does not return the run')
+    return run
 
 
 def place_termination(spec, st, kind, run):
@@ -65,8 +120,10 @@ def add_sleeps(tape, spec):
 
 
 def _run(tape, clock):
+    mode = tape.draw(3)            # 0 random, 1 placed termination, 2 a worker thread still sending while the operation ends
+    if mode == 2:
+        return straggler_output(tape, clock)
     run = Run(PROP)
-    mode = tape.draw(2)
     pos = tape.draw(4096)
     term = TERMINATIONS[tape.draw(len(TERMINATIONS))]
     extractor = EXTRACTORS[tape.draw(len(EXTRACTORS))]
@@ -230,6 +287,13 @@ def companion(run, spec, recorder, cas, interrupted):
 
 def run_index(i, seed, tier, emit):
     mod = sys.modules[__name__]
+    if i % 6 == 5:
+        # the straggler scenario with its two pre-emptions placed systematically (strides in the quick tier)
+        for k in range(0, 160, 2 if tier == 'quick' else 1):
+            for m in range(0, 100, 6 if tier == 'quick' else 2):
+                t = Tape(seed + i, prefix=[2, k, m])
+                emit(safe_run_tape(mod, t), t)
+        return
     t = Tape(seed, prefix=[0])
     dry = safe_run_tape(mod, t)
     emit(dry, t)
